@@ -31,17 +31,21 @@ pub uninterp spec fn f64_le_s(a: f64, b: f64) -> bool;
 pub uninterp spec fn f64_gt_s(a: f64, b: f64) -> bool;
 pub uninterp spec fn f64_ge_s(a: f64, b: f64) -> bool;
 pub uninterp spec fn f64_eq_s(a: f64, b: f64) -> bool;
-#[verifier::external_body] pub fn f64_add(a: f64, b: f64) -> (r: f64) ensures r == f64_add_s(a, b) { a + b }
-#[verifier::external_body] pub fn f64_sub(a: f64, b: f64) -> (r: f64) ensures r == f64_sub_s(a, b) { a - b }
-#[verifier::external_body] pub fn f64_mul(a: f64, b: f64) -> (r: f64) ensures r == f64_mul_s(a, b) { a * b }
-#[verifier::external_body] pub fn f64_div(a: f64, b: f64) -> (r: f64) ensures r == f64_div_s(a, b) { a / b }
-#[verifier::external_body] pub fn f64_neg(a: f64) -> (r: f64) ensures r == f64_neg_s(a) { -a }
-#[verifier::external_body] pub fn f64_lt(a: f64, b: f64) -> (r: bool) ensures r == f64_lt_s(a, b) { a < b }
-#[verifier::external_body] pub fn f64_le(a: f64, b: f64) -> (r: bool) ensures r == f64_le_s(a, b) { a <= b }
-#[verifier::external_body] pub fn f64_gt(a: f64, b: f64) -> (r: bool) ensures r == f64_gt_s(a, b) { a > b }
-#[verifier::external_body] pub fn f64_ge(a: f64, b: f64) -> (r: bool) ensures r == f64_ge_s(a, b) { a >= b }
-#[verifier::external_body] pub fn f64_eq(a: f64, b: f64) -> (r: bool) ensures r == f64_eq_s(a, b) { a == b }
-#[verifier::external_body] pub fn f64_ne(a: f64, b: f64) -> (r: bool) ensures r == !f64_eq_s(a, b) { a != b }
+/// an f64 operand passed by value or by reference (`1.0 / self` with self: &f64 uses `Div<&f64> for f64`)
+pub trait F64Arg: Sized { spec fn f64v(self) -> f64; }
+impl F64Arg for f64 { open spec fn f64v(self) -> f64 { self } }
+impl<'a> F64Arg for &'a f64 { open spec fn f64v(self) -> f64 { *self } }
+#[verifier::external_body] pub fn f64_add<A: F64Arg, B: F64Arg>(a: A, b: B) -> (r: f64) ensures r == f64_add_s(a.f64v(), b.f64v()) { unimplemented!() }
+#[verifier::external_body] pub fn f64_sub<A: F64Arg, B: F64Arg>(a: A, b: B) -> (r: f64) ensures r == f64_sub_s(a.f64v(), b.f64v()) { unimplemented!() }
+#[verifier::external_body] pub fn f64_mul<A: F64Arg, B: F64Arg>(a: A, b: B) -> (r: f64) ensures r == f64_mul_s(a.f64v(), b.f64v()) { unimplemented!() }
+#[verifier::external_body] pub fn f64_div<A: F64Arg, B: F64Arg>(a: A, b: B) -> (r: f64) ensures r == f64_div_s(a.f64v(), b.f64v()) { unimplemented!() }
+#[verifier::external_body] pub fn f64_neg<A: F64Arg>(a: A) -> (r: f64) ensures r == f64_neg_s(a.f64v()) { unimplemented!() }
+#[verifier::external_body] pub fn f64_lt<A: F64Arg, B: F64Arg>(a: A, b: B) -> (r: bool) ensures r == f64_lt_s(a.f64v(), b.f64v()) { unimplemented!() }
+#[verifier::external_body] pub fn f64_le<A: F64Arg, B: F64Arg>(a: A, b: B) -> (r: bool) ensures r == f64_le_s(a.f64v(), b.f64v()) { unimplemented!() }
+#[verifier::external_body] pub fn f64_gt<A: F64Arg, B: F64Arg>(a: A, b: B) -> (r: bool) ensures r == f64_gt_s(a.f64v(), b.f64v()) { unimplemented!() }
+#[verifier::external_body] pub fn f64_ge<A: F64Arg, B: F64Arg>(a: A, b: B) -> (r: bool) ensures r == f64_ge_s(a.f64v(), b.f64v()) { unimplemented!() }
+#[verifier::external_body] pub fn f64_eq<A: F64Arg, B: F64Arg>(a: A, b: B) -> (r: bool) ensures r == f64_eq_s(a.f64v(), b.f64v()) { unimplemented!() }
+#[verifier::external_body] pub fn f64_ne<A: F64Arg, B: F64Arg>(a: A, b: B) -> (r: bool) ensures r == !f64_eq_s(a.f64v(), b.f64v()) { unimplemented!() }
 pub trait VerifAsF64 { fn verif_as_f64(self) -> f64; }
 impl VerifAsF64 for usize { #[verifier::external_body] fn verif_as_f64(self) -> (r: f64) ensures r == f64_of_int(self as int) { self as f64 } }
 impl VerifAsF64 for u8 { #[verifier::external_body] fn verif_as_f64(self) -> (r: f64) ensures r == f64_of_int(self as int) { self as f64 } }
@@ -93,3 +97,38 @@ pub fn verif_map_unzip<I: Iterator, U, V, F: FnMut(I::Item) -> (U, V)>(it: I, f:
     ensures r.0.len() == it.remaining().len(), r.1.len() == it.remaining().len(),
         forall |k: int| 0 <= k < it.remaining().len() ==> #[trigger] f.ensures((it.remaining()[k],), (r.0[k], r.1[k])),
 { it.map(f).unzip() }
+
+// A-LIB-ARRAY: definitional contracts of the array constructors used by src/vector.rs
+pub assume_specification<T, const N: usize, F: FnMut(usize) -> T>[ ::core::array::from_fn ](f: F) -> (r: [T; N])
+    requires forall |i: usize| i < N ==> #[trigger] f.requires((i,)),
+    ensures forall |i: usize| i < N ==> f.ensures((i,), #[trigger] r[i as int]),
+;
+pub assume_specification<T, const N: usize>[ <[T; N]>::each_ref ](a: &[T; N]) -> (r: [&T; N])
+    ensures forall |i: int| 0 <= i < N ==> *#[trigger] r[i] == a[i],
+;
+pub assume_specification<T, const N: usize, F: FnMut(T) -> U, U>[ <[T; N]>::map ](a: [T; N], f: F) -> (r: [U; N])
+    requires forall |i: int| 0 <= i < N ==> f.requires((#[trigger] a[i],)),
+    ensures forall |i: int| 0 <= i < N ==> f.ensures((a[i],), #[trigger] r[i]),
+;
+
+// A-F64-STD: the f64 library functions named by `impl MomTropFloat for f64` (src/float.rs:68-124), as uninterpreted symbols
+pub uninterp spec fn f64_ln_s(a: f64) -> f64;
+pub uninterp spec fn f64_exp_s(a: f64) -> f64;
+pub uninterp spec fn f64_cos_s(a: f64) -> f64;
+pub uninterp spec fn f64_sin_s(a: f64) -> f64;
+pub uninterp spec fn f64_sqrt_s(a: f64) -> f64;
+pub uninterp spec fn f64_abs_s(a: f64) -> f64;
+pub uninterp spec fn f64_powf_s(a: f64, b: f64) -> f64;
+pub uninterp spec fn f64_is_nan_s(a: f64) -> bool;
+pub uninterp spec fn f64_is_finite_s(a: f64) -> bool;
+pub assume_specification [f64::ln](x: f64) -> (r: f64) ensures r == f64_ln_s(x);
+pub assume_specification [f64::exp](x: f64) -> (r: f64) ensures r == f64_exp_s(x);
+pub assume_specification [f64::cos](x: f64) -> (r: f64) ensures r == f64_cos_s(x);
+pub assume_specification [f64::sin](x: f64) -> (r: f64) ensures r == f64_sin_s(x);
+pub assume_specification [f64::sqrt](x: f64) -> (r: f64) ensures r == f64_sqrt_s(x);
+pub assume_specification [f64::abs](x: f64) -> (r: f64) ensures r == f64_abs_s(x);
+pub assume_specification [f64::powf](x: f64, p: f64) -> (r: f64) ensures r == f64_powf_s(x, p);
+pub assume_specification [f64::is_nan](x: f64) -> (r: bool) ensures r == f64_is_nan_s(x);
+pub assume_specification [f64::is_finite](x: f64) -> (r: bool) ensures r == f64_is_finite_s(x);
+pub uninterp spec fn f64_pi_s() -> f64;
+#[verifier::external_body] pub fn f64_const_pi() -> (r: f64) ensures r == f64_pi_s() { ::core::f64::consts::PI }
